@@ -333,7 +333,7 @@ def stage_transfunc(ctx):
     from holopy.propagation.convolution_propagation import trans_func
     rng = ctx.subrng("trans")
     goals, metas, tacs = [], [], []
-    ncases = ctx.n(14, 200)
+    ncases = ctx.n(14, 120)
     skipped = 0
     for k in range(ncases):
         big = rng.random() < 0.2
